@@ -21,6 +21,16 @@ chk("C04", "E1", "explicit enumeration of the (selector, literal, document) spac
     "Every (selector, literal, document) triple of the C01 match space x 4 operator pairs: negated = complement / same error-ness, contains == flipped in (outcome and AST), each == not(counterpart).",
     "Outcome classes only; bounded alphabets of C01.", "DESIGN.md 5 C04")
 
+chk("C02", "E1", "explicit enumeration of literal spellings x typed values (all 8-bit / thorough 16-bit integers, boundary sets, float specials, all short strings) on the real Evaluate and Coerce* functions vs a math/big reference",
+    "Exhaustive for 8-bit (thorough 16-bit) integers against ~3k literal spellings, boundary alphabets for wider ints and floats, all strings <=3 over a tricky alphabet in every legal quoting: `a == lit` true exactly when lit read in the value's own type denotes the same value, error for invalid literals and non-scalars; exported Coerce* functions checked directly on every literal.",
+    "Reference uses math/big and its own float-literal recogniser (no strconv); floats: boundary alphabet, not all bit patterns.", "DESIGN.md 5 C02")
+chk("C05", "E1", "explicit enumeration of absent-path shapes x operators x unknown-value configurations on the real Evaluate vs the reference, plus two-run (inserted value) and unknown-value-is-neutral oracles",
+    "Every selector path of depth<=3 (thorough 4) over {present, absent, index, out-of-range} parts x parent kinds x 8 operators + any/all x 7 unknown-value settings: the documented absent-key table, the error cases, `unknown value == as if resolved to v` (checked by inserting v into the datum and re-evaluating) and neutrality when everything resolves.",
+    "Reference as C01; unknown values from scalar kinds only.", "DESIGN.md 5 C05")
+chk("C06", "E1", "explicit enumeration of every {T,F,E} assignment to collection elements x binding modes x name choices x body templates on the real Evaluate vs the reference and vs the syntactically unrolled or/and chain",
+    "All collections of length 0..4 (thorough 0..5) of each shape with every assignment of element outcomes x any/all x 4 binding modes x shadowing name choices x body templates x nesting: the fold result, early exit, binding tables, scoping and the error for non-iterables agree with the reference; value aliases over lists also equal the unrolled disjunction/conjunction evaluated by the implementation itself.",
+    "Reference as C01; for maps with an erroring and a decisive element both outcomes are allowed (order unspecified; consistency is C14).", "DESIGN.md 5 C06")
+
 REASON_NOT_BUILT = "check not built yet (in progress) - will be decided by bounded exhaustive exploration, see DESIGN.md"
 
 def main():
